@@ -1,6 +1,7 @@
 package main
 
 import (
+	"io"
 	"runtime"
 
 	"bytes"
@@ -197,6 +198,25 @@ func finishFull(id string, sp *sxSpec, kc *keyCert, se *signedEx, times [][2]int
 	return finishFullG(id, sp, kc, se, times, false)
 }
 
+// nestWriter serializes another exchange in the middle of the first Write call it receives (the overlap of two Write
+// calls, made deterministic: no second goroutine needed)
+type nestWriter struct {
+	inner io.Writer
+	other *sxg.Exchange
+	done  bool
+}
+
+func (n *nestWriter) Write(p []byte) (int, error) {
+	if !n.done {
+		n.done = true
+		var sink bytes.Buffer
+		n.other.Write(&sink)
+	}
+	return n.inner.Write(p)
+}
+
+var prevWritten *sxg.Exchange
+
 // regen: the exchange was not built by NewExchange + MiEncodePayload but obtained from ReadExchange, edited and signed
 // again (no MI step to judge: the payload and its digest header are whatever the object holds)
 func finishFullG(id string, sp *sxSpec, kc *keyCert, se *signedEx, times [][2]int64, regen bool) []byte {
@@ -223,7 +243,14 @@ func finishFullG(id string, sp *sxSpec, kc *keyCert, se *signedEx, times [][2]in
 		for _, t := range times {
 			verifs = append(verifs, doVerify(e, kc, t[0], int(t[1]), "mem"))
 		}
-		werr := e.Write(&fb)
+		// the destination is slow: while this Write is in progress (at its first call into the destination) ANOTHER exchange
+		// is written completely - what a server does that streams several exchanges at once; each file is its own exchange's
+		var dest io.Writer = &fb
+		if prevWritten != nil && prevWritten != e {
+			dest = &nestWriter{inner: &fb, other: prevWritten}
+		}
+		werr := e.Write(dest)
+		prevWritten = e
 		ev["writeerr"] = werr != nil
 		if werr == nil {
 			ev["file"] = ints(fb.Bytes())
